@@ -159,6 +159,14 @@ def cascade_replay(ctx, d, T):
         exp_not = 'fixed' if F(1, 1000) <= ax < 10000 else 'scientific'
         ok = (ax == 0 and s in ('0', '-0')) or (digits == MD10[T] + 1 and notation == exp_not)
         rp.case['expected_note'] = 'PhQ::Print(%s) = %s' % (core.hexf(x), s)
+        if ok and ax != 0:
+            # a replayed candidate is also parsed back (the environment's strtof/strtod/strtold): lossless means same number
+            try:
+                back = H.NPT[T](s)
+            except Exception:
+                back = None
+            if back is None or not (back == x):
+                return True, 'PhQ::Print(%s) = "%s" parses back to %s, a different number' % (core.hexf(x), s, core.hexf(back) if back is not None else 'nothing')
         return (not ok), 'PhQ::Print(%s) = "%s": %d significant digits, %s notation; required %d digits, %s' % (core.hexf(x), s, digits, notation, MD10[T] + 1, exp_not)
     rp.case = {'kind': 'observed', 'impl': d['w']}
     return rp
